@@ -15,8 +15,8 @@ RULE = ('histories of 1-6 hypotheses over {a,b,c} (len 0-6; classes: random, pre
 ASSUMPTIONS = ['symbols are 1-character strings (sorted_cn_paths concatenates them)',
                'all readable strings are enumerated when the network has <= 4000 arc combinations, otherwise only the added hypotheses are required to stay readable']
 N = {'quick': 4000, 'thorough': 300000}
-CLASSES = ['random', 'prefix_suffix', 'end_burst', 'start_burst', 'middle_burst', 'with_empty', 'permutations', 'boh', 'boh_lm', 'single']
-REQUIRED = ['adds_checked', 'old_readable_checked', 'weight_checked', 'paths_checked', 'boh_checked', 'single_checked']
+CLASSES = ['random', 'prefix_suffix', 'end_burst', 'start_burst', 'middle_burst', 'with_empty', 'permutations', 'boh', 'boh_lm', 'single', 'wide_scores', 'long_single']
+REQUIRED = ['networks_over_1000_positions', 'peaky_bags', 'wide_score_histories', 'adds_checked', 'old_readable_checked', 'weight_checked', 'paths_checked', 'boh_checked', 'single_checked']
 KNOWN_EMPTY = 'empty hypothesis added to an empty network'
 
 
@@ -53,17 +53,32 @@ def gen(rng, i, ctx):
             hyps[0] = ''
     elif cls == 'single':
         hyps = [rs(rng, 0, 6, alpha)]
+    elif cls == 'long_single':
+        hyps = [rs(rng, 1000, 1500, alpha)]          # a long text line: more than a thousand positions
     else:
         hyps = [rs(rng, 0, 6, alpha) for _ in range(n)]
     if cls != 'single' and rng.random() < 0.3:
         rng.shuffle(hyps)
     scores = [float(rng.choice([0.25, 0.5, 1.0, 2.0])) if rng.random() < 0.6 else float(rng.uniform(0.01, 3.0)) for _ in hyps]
+    if cls == 'wide_scores':
+        # weights many orders of magnitude apart (posteriors of a peaky bag): ascending, descending or mixed
+        ex = rng.uniform(-20, 20, size=len(hyps))
+        mode = int(rng.integers(0, 3))
+        ex = np.sort(ex) if mode == 0 else (np.sort(ex)[::-1] if mode == 1 else ex)
+        if mode == 0:
+            ex = np.cumsum(np.abs(rng.uniform(8, 18, size=len(hyps)))) - 30      # each weight at least 1e8 times everything before it
+        scores = [float(10.0 ** e) for e in ex]
     case = {'cls': cls, 'hyps': list(hyps), 'scores': scores}
     if cls == 'permutations':
         case['hyps'] = hyps[:4]
         case['scores'] = scores[:4]
     if cls in ('boh', 'boh_lm'):
         case['vis'] = [float(-rng.uniform(0, 6)) for _ in hyps]
+        if rng.random() < 0.35:
+            # a peaky bag: later hypotheses tens of nats below the first ones (still positive weights)
+            case['vis'] = [float(-rng.uniform(0, 4) - (0 if k == 0 else rng.uniform(30, 90))) for k in range(len(hyps))]
+            if rng.random() < 0.5:
+                case['vis'] = case['vis'][::-1]
         case['lm'] = [float(-rng.uniform(0, 6)) for _ in hyps] if cls == 'boh_lm' else None
         case['weights'] = (float(rng.choice([1.0, 0.5, 2.0])), float(rng.choice([0.0, 1.0, 0.7, 3.0])))
         # a bag holds distinct transcripts
@@ -234,8 +249,10 @@ def check(case, mon, ctx):
     hyps, scores = case['hyps'], case['scores'][:len(case['hyps'])]
     if len(set(h for h in hyps if h)) >= 2:
         mon.mark_nontrivial()
-    if case['cls'] == 'single':
+    if case['cls'] in ('single', 'long_single'):
         h = hyps[0]
+        if len(h) >= 1000:
+            mon.count('networks_over_1000_positions')
         cn = cnm.add_hypothese([], h, scores[0])
         mon.count('single_checked')
         ncn = cnm.normalize_cn(copy.deepcopy(cn))
@@ -259,6 +276,8 @@ def check(case, mon, ctx):
         exp_scores = [math.exp(vw * case['vis'][k] + (lw * case['lm'][k] if case['lm'] else 0.0)) for k in range(len(hyps))]
         raw = cnm.produce_cn_from_boh(boh, visual_weight=vw, lm_weight=lw, normalize=False)
         mon.count('boh_checked')
+        if max(exp_scores) > 1e12 * min(exp_scores):
+            mon.count('peaky_bags')
         # the same history through add_hypothese directly, under the full history monitor
         cn, must_read, total = run_history(hyps, exp_scores, mon, ctx)
         if raw != cn and not (len(raw) == len(cn) and all(set(a) == set(b) and all(close(a[k], b[k]) for k in a) for a, b in zip(raw, cn))):
@@ -279,6 +298,8 @@ def check(case, mon, ctx):
     for order in orders:
         hh = [hyps[k] for k in order]
         ss = [scores[k] for k in order]
+        if case['cls'] == 'wide_scores':
+            mon.count('wide_score_histories')
         cn, must_read, total = run_history(hh, ss, mon, ctx)
         mon.observe('network', [sorted((repr(k), round(v, 12)) for k, v in pos.items()) for pos in cn])
         check_paths(cn, mon, ctx, {'history': hh, 'scores': ss})
